@@ -126,13 +126,16 @@ func init() {
 		e1, e2 := append([]byte{0, 0}, saltBytes(salt, 0x5a, 14)...), saltBytes(salt, 0xC3, 48)
 		w1, w2 := toM(e1), toM(e2)
 		badCk := append([]string{}, w1...)
-		badCk[11] = w1[10]
-		if _, _, ok := rb39.FromIndices(func() []int {
+		for r := 10; r >= 0; r-- { // a last word that the reference rejects (a random replacement is valid with probability 1/16)
 			idx := rb39.Indices(e1)
-			idx[11] = idx[10]
-			return idx
-		}()); ok {
-			badCk[11] = w1[9]
+			if idx[r] == idx[11] {
+				continue
+			}
+			idx[11] = idx[r]
+			if _, _, ok := rb39.FromIndices(idx); !ok {
+				badCk[11] = w1[r]
+				break
+			}
 		}
 		mslot := make([]string, 0, 64) // the caller's re-used sentence slice
 		mn := func(w []string) bip39.Mnemonic {
@@ -258,8 +261,20 @@ func init() {
 			}
 			return f
 		}}
+		// MarshalText: the caller keeps the returned bytes while it marshals other paths
+		mar := func(p []uint32, want string) hOp {
+			return hOp{"MarshalText(" + want + ") kept", want, func(a *arena) string {
+				b, err := bip32path.Path(append([]uint32{}, p...)).MarshalText()
+				if err != nil {
+					return err.Error()
+				}
+				a.hold = func() string { return string(b) }
+				return string(b)
+			}}
+		}
 		return []hOp{parse(fmt.Sprintf("m/44'/4218H/%d/007", salt)), parse(fmt.Sprintf("44'/%d", salt+1)), parse("m/2147483648"), parse("m"), parse("m/0x1"),
-			str([]uint32{44 | 1<<31, 0, 1<<32 - 1}, "m/44'/0/2147483647'"), str(nil, "m"), unm}
+			str([]uint32{44 | 1<<31, 0, 1<<32 - 1}, "m/44'/0/2147483647'"), str(nil, "m"), unm,
+			mar([]uint32{44 | 1<<31, uint32(salt), 7}, fmt.Sprintf("m/44'/%d/7", salt)), mar([]uint32{1, 2, 3, 4, 5, 6 | 1<<31}, "m/1/2/3/4/5/6'")}
 	}
 
 	// ---------------- b1t6 / b1t8 (C14) ----------------
@@ -490,6 +505,24 @@ func init() {
 				f := fp(h, err)
 				scribble(h)
 				return f
+			}},
+			// a proof decoded from a buffer the caller re-uses, kept as an object: its encoding and hash later on are still
+			// those of the proof that was decoded
+			{"Proof.SetBytes(A) kept", fp(piA[:], betaA[:]), func(a *arena) string {
+				p, err := new(vrf.Proof).SetBytes(a.buf(2, piA[:]))
+				if err != nil {
+					return err.Error()
+				}
+				a.hold = func() string { return fp(p.Bytes(), p.Hash()) }
+				return a.hold()
+			}},
+			{"Proof.UnmarshalBinary(B) kept", fp(piB[:]), func(a *arena) string {
+				var p vrf.Proof
+				if err := p.UnmarshalBinary(a.buf(2, piB[:])); err != nil {
+					return err.Error()
+				}
+				a.hold = func() string { b, _ := p.MarshalBinary(); return fp(b) }
+				return a.hold()
 			}},
 		}
 	}
